@@ -15,6 +15,7 @@ from .interp import (Num, Arr, View, Masked, Mask, Const, Obj, Func, Native, Seq
 # C07/C08 are stated for every array the transforms accept (stacked (m, length) inputs included: there axis=0 is not the
 # default last axis); the properties that only ever transform 1-D pair functions (C01, C06 ...) treat axis=0 as the default
 STRICT_AXIS = False
+FLOAT_PIPELINE = False     # set for the properties about the solver pipeline, whose arrays are allocated by the package as float64
 
 # fully-qualified aliases
 ALIASES = {
@@ -159,12 +160,33 @@ def np_minmax(which):
     def g(ip, args, kwargs, node):
         if len(args) != 2 or kwargs:
             raise Unsupported('np.%s with %d args / keywords' % (which, len(args)), node)
-        ta, ka = ip.term_of(args[0], node)
-        tb, kb = ip.term_of(args[1], node)
+        cond = None
+        if isinstance(args[0], Masked) or isinstance(args[1], Masked):
+            # operands restricted by one boolean mask: the result is restricted the same way
+            ms = [a for a in args if isinstance(a, Masked)]
+            cond = ms[0].cond
+            if any(not cond.same(m.cond) for m in ms[1:]):
+                raise Unsupported('np.%s of operands restricted by different masks' % which, node)
+            ts = []
+            for a in args:
+                if isinstance(a, Masked):
+                    ts.append(a.t)
+                else:
+                    t, k = ip.term_of(a, node)
+                    if k == 'array':
+                        raise Unsupported('masked and unmasked array operands mixed', node)
+                    ts.append(t)
+            ta, tb = ts
+            ka = kb = 'array'
+        else:
+            ta, ka = ip.term_of(args[0], node)
+            tb, kb = ip.term_of(args[1], node)
         if P.is_pw(ta) or P.is_pw(tb):
             raise Unsupported('np.%s of piecewise terms' % which, node)
         c = P.Cond.cmp('>', ta, tb)
         t = P.ite(c, tb, ta) if which == 'minimum' else P.ite(c, ta, tb)
+        if cond is not None:
+            return Masked(t, cond)
         return ip.make_result(t, 'array' if 'array' in (ka, kb) else 'scalar')
     return g
 
@@ -208,6 +230,7 @@ def np_position(name):
 
 
 _UNINIT = [0]
+UNINIT_DIM = {}
 
 
 def np_empty(ip, args, kwargs, node):
@@ -215,6 +238,19 @@ def np_empty(ip, args, kwargs, node):
     name = 'uninit%d' % _UNINIT[0]
     ip.sym_kind[name] = 'tensor'
     a = ip.fresh_array(N.sym(name))
+    # contents are unspecified; the leading dimension is remembered so that two scratch buffers can be compared by shape
+    try:
+        is_like = 'like' in (node.func.attr if isinstance(getattr(node, 'func', None), ast.Attribute) else '')
+        shp = args[0] if args else kwargs.get('shape')
+        if is_like:
+            dim = length_of(ip, ip.term_of(shp, node)[0])
+        elif isinstance(shp, Seq):
+            dim = ip.term_of(shp.items[0], node)[0]
+        else:
+            dim = ip.term_of(shp, node)[0]
+        UNINIT_DIM[name] = dim
+    except Unsupported:
+        pass
     if 'like' in (node.func.attr if isinstance(getattr(node, 'func', None), ast.Attribute) else '') and args and 'dtype' not in kwargs:
         a.dtype_like = args[0]
     return a
@@ -246,8 +282,104 @@ def np_fill(value):
     return g
 
 
+FLOAT64_NAMES = {'builtins.float', 'numpy.float64', 'numpy.double', 'numpy.float_', 'numpy.longdouble', 'numpy.float128'}
+INT_NAMES = {'builtins.int', 'numpy.int64', 'numpy.int32', 'numpy.int_', 'numpy.intp', 'numpy.int16', 'numpy.int8',
+             'numpy.uint8', 'numpy.uint16', 'numpy.uint32', 'numpy.uint64', 'numpy.long', 'numpy.longlong'}
+
+
+def dtype_spec(ip, v, node):
+    """classify a dtype argument: 'float64' | 'int' | ('like', array) ; anything else is outside the model"""
+    if isinstance(v, Const) and v.v is None:
+        return None
+    if isinstance(v, Lib):
+        if v.name in FLOAT64_NAMES:
+            return 'float64'
+        if v.name in INT_NAMES:
+            return 'int'
+    if isinstance(v, Const) and isinstance(v.v, str):
+        if v.v in ('float64', 'float', 'd', 'f8', '<f8', 'double'):
+            return 'float64'
+        if v.v in ('int', 'int64', 'i8', '<i8', 'int32', 'i4', 'i', 'l'):
+            return 'int'
+    if isinstance(v, Obj) and v.cls == 'dtype':
+        return ('like', v.attrs['arr'])
+    raise Unsupported('dtype %r is not modelled' % (v,), node)
+
+
+def cast_value(ip, x, spec, node, copy=True):
+    """x converted to the dtype `spec` (see dtype_spec).  float64 is the working precision of every array in the
+    model, so that cast is the identity on numbers; a boolean mask becomes its 0/1 indicator; an integer dtype truncates;
+    the dtype *of an input array* is not known statically: the result is an uninterpreted cast of the value (identity
+    only if that input happens to be float64)."""
+    if isinstance(x, Mask):
+        if spec in ('float64', 'int'):
+            return ip.make_result(P.ite(x.cond, N.NF.const(1), N.NF.const(0)), x.kind)
+        raise Unsupported('cast of a boolean mask to %r' % (spec,), node)
+    if isinstance(x, Masked):
+        raise Unsupported('cast of a mask-restricted array', node)
+    if isinstance(x, Seq) and len(x.items) != 1:
+        raise Unsupported('cast of a sequence', node)
+    t, k = ip.term_of(x, node)
+    if spec == 'float64' or spec is None:
+        if not copy and isinstance(x, (Arr, View)):
+            return x
+        return ip.make_result(t, k) if k == 'array' else Num(t, 'scalar')
+    if spec == 'int':
+        def trunc(leaf):
+            if _is_integer_valued(leaf):
+                return leaf
+            return N.fn('trunc', leaf)
+        return ip.make_result(P.lift1(trunc, t), k)
+    if isinstance(spec, tuple) and spec[0] == 'like':
+        src = spec[1]
+        while isinstance(src, View):
+            src = src.base
+        if src is x or (isinstance(x, View) and x.base is src):
+            return x if not copy else ip.make_result(t, k)
+        if isinstance(src, Arr) and not src.fresh and FLOAT_PIPELINE:
+            return x if not copy else ip.make_result(t, k)
+        if isinstance(src, Arr) and not src.fresh:
+            # the dtype of a caller-supplied array is whatever the caller chose (an integer grid, float32 data, ...)
+            ip.event('dtype-cast', src.origin, node, via='cast to the dtype of an input')
+            tag = N.sym('dtype(%s)' % src.origin)
+            ip.sym_kind.setdefault('dtype(%s)' % src.origin, 'scalar')
+            return ip.make_result(P.lift1(lambda leaf: N.fn('astype', leaf, tag), t), k)
+        if isinstance(src, (Arr, Num)) and getattr(src, 'dtype_like', None) is None:
+            # an array the analysed code computed itself: float64 unless every value is an integer
+            st = src.t
+            if all(_is_integer_valued(leaf) for leaf in P.leaves(st)):
+                return cast_value(ip, x, 'int', node, copy)
+            return cast_value(ip, x, 'float64', node, copy)
+        raise Unsupported('cast to the dtype of a computed array', node)
+    raise Unsupported('cast to %r' % (spec,), node)
+
+
+def nd_astype(ip, selfv, args, kwargs, node):
+    extra = set(kwargs) - {'dtype', 'copy'}
+    if extra or len(args) > 1:
+        raise Unsupported('astype with arguments %s' % sorted(extra), node)
+    d = args[0] if args else kwargs.get('dtype')
+    if d is None:
+        raise Raised('TypeError', 'astype() missing required argument dtype', ip.loc(node))
+    cp = kwargs.get('copy')
+    copy = not (isinstance(cp, Const) and cp.v is False)
+    return cast_value(ip, selfv, dtype_spec(ip, d, node), node, copy=copy)
+
+
+def _dtype_arg(ip, args, kwargs, node):
+    d = kwargs.get('dtype')
+    if d is None and len(args) >= 2:
+        d = args[1]
+    extra = set(kwargs) - {'dtype', 'copy', 'order'}
+    if extra:
+        raise Unsupported('array constructor keywords %s' % sorted(extra), node)
+    return dtype_spec(ip, d, node) if d is not None else None
+
+
 def np_copy(ip, args, kwargs, node):
     x = args[0]
+    if isinstance(x, Mask):
+        return x
     if isinstance(x, Seq):
         if len(x.items) == 1:
             t, _ = ip.term_of(x, node)
@@ -259,8 +391,18 @@ def np_copy(ip, args, kwargs, node):
     return ip.fresh_array(t)
 
 
+def np_array(ip, args, kwargs, node):
+    spec = _dtype_arg(ip, args, kwargs, node)
+    if spec is not None:
+        return cast_value(ip, args[0], spec, node)
+    return np_copy(ip, args[:1], {}, node)
+
+
 def np_asarray(ip, args, kwargs, node):
     x = args[0]
+    spec = _dtype_arg(ip, args, kwargs, node)
+    if spec is not None:
+        return cast_value(ip, x, spec, node, copy=False)
     if isinstance(x, (Arr, View)):
         return x          # alias
     return np_copy(ip, args, kwargs, node)
@@ -305,9 +447,18 @@ def np_linspace(ip, args, kwargs, node):
         vals.append(ip.term_of(num, node)[0])
     if len(vals) != 3:
         raise Unsupported('linspace arity', node)
+    extra = set(kwargs) - {'num', 'endpoint'}
+    if extra:
+        raise Unsupported('linspace keywords %s' % sorted(extra), node)
+    ep = kwargs.get('endpoint', TRUE)
+    if not isinstance(ep, Const):
+        raise Unsupported('linspace endpoint=%r' % (ep,), node)
     lo, hi, n = vals
-    ip.notes.append(('linspace', {'lo': lo, 'hi': hi, 'n': n, 'loc': ip.loc(node)}))
-    return ip.fresh_array(lo + (hi - lo) / (n - 1) * N.fn('iota', n))
+    if P.is_pw(n):
+        raise Unsupported('piecewise number of points', node)
+    ip.notes.append(('linspace', {'lo': lo, 'hi': hi, 'n': n, 'loc': ip.loc(node), 'endpoint': bool(ep.v)}))
+    den = (n - 1) if ep.v else n
+    return ip.fresh_array(P.lift2(lambda a, b: a + (b - a) / den * N.fn('iota', n), lo, hi))
 
 
 def np_reduce(name):
@@ -438,6 +589,7 @@ def sp_dst(ip, args, kwargs, node):
     if len(args) > 2:
         raise Unsupported('dst with positional n/axis/norm arguments', node)
     variant = []
+    overwrite = None
     for k in extra:
         v = kwargs[k]
         if k == 'norm' and isinstance(v, Const) and v.v is None:
@@ -453,7 +605,18 @@ def sp_dst(ip, args, kwargs, node):
             continue
         if k == 'n':
             continue
-        if k in ('norm', 'axis', 'overwrite_x') and (isinstance(v, Const) or is_const_num(v)):
+        if k == 'overwrite_x' and (isinstance(v, Const) or is_const_num(v)):
+            truthy = bool(v.v) if isinstance(v, Const) else num_value(v) != 0
+            if truthy:
+                # the operand may be used as work space: its contents are unspecified afterwards (same transform)
+                x = args[0]
+                root = x
+                while isinstance(root, View):
+                    root = root.base
+                if isinstance(root, Arr):
+                    overwrite = x
+            continue
+        if k in ('norm', 'axis') and (isinstance(v, Const) or is_const_num(v)):
             variant.append('%s=%s' % (k, v.v if isinstance(v, Const) else num_value(v)))
             continue
         raise Unsupported('dst keyword %s with a non-literal value' % k, node)
@@ -462,6 +625,11 @@ def sp_dst(ip, args, kwargs, node):
         raise Unsupported('piecewise dst operand', node)
     # a normalised / truncated / other-axis transform is a different linear map: a distinct uninterpreted atom
     name = 'dst%d' % ty + (''.join('[%s]' % x for x in variant))
+    if overwrite is not None and not variant:
+        # overwrite_x=True: fftpack transforms a contiguous float64 operand in its own memory and returns that memory (what
+        # happens for every array the package passes); the model takes that case -- code that is right only when the
+        # result is a new array is not right
+        return _write_out(ip, overwrite, N.fn(name, t), node)
     return ip.fresh_array(N.fn(name, t))
 
 
@@ -677,6 +845,58 @@ def b_range(ip, args, kwargs, node):
     else:
         lo, hi, st = vals
     return Obj('range', {'lo': lo, 'hi': hi, 'step': st})
+
+
+def b_minmax(which):
+    """builtin min / max of scalars (several arguments or one sequence); of one array: the reduction"""
+    def g(ip, args, kwargs, node):
+        if kwargs:
+            raise Unsupported('%s with keywords' % which, node)
+        items = list(args)
+        if len(items) == 1:
+            x = items[0]
+            if isinstance(x, Seq):
+                items = list(x.items)
+            elif getattr(x, 'kind', None) == 'array':
+                return np_reduce(which)(ip, [x], {}, node)
+            else:
+                raise Raised('TypeError', '%r object is not iterable' % (x,), ip.loc(node))
+        if not items:
+            raise Raised('ValueError', '%s() arg is an empty sequence' % which, ip.loc(node))
+        acc = None
+        for it in items:
+            t, k = ip.term_of(it, node)
+            if k == 'array':
+                raise Raised('ValueError', 'The truth value of an array with more than one element is ambiguous (%s of arrays)' % which,
+                             ip.loc(node))
+            if acc is None:
+                acc = t
+            else:
+                # python keeps the first of equal arguments; as numbers they are the same
+                def pick(a, b):
+                    if any(x[0] == 'fn' and x[1] in ('max', 'min', 'sum', 'mean', 'ptp', 'median') for x in (a.all_atoms() | b.all_atoms())):
+                        # an operand is a reduction over an array: keep the choice uninterpreted (one term, not a case split
+                        # on an ordering nobody can enumerate)
+                        return N.fn('s' + which, a, b)
+                    return P.ite(P.Cond.cmp('>' if which == 'max' else '<', b, a), b, a)
+                acc = P.lift2(pick, acc, t)
+        return Num(acc, 'scalar')
+    return g
+
+
+def b_sum(ip, args, kwargs, node):
+    x = args[0]
+    start = args[1] if len(args) > 1 else kwargs.get('start', const_num(0))
+    if isinstance(x, Seq):
+        acc = start
+        for it in x.items:
+            acc = ip.binop('Add', acc, it, node)
+        return acc
+    if getattr(x, 'kind', None) == 'array':
+        if len(args) > 1 or kwargs:
+            raise Unsupported('sum(array, start)', node)
+        return np_reduce('sum')(ip, [x], {}, node)
+    raise Unsupported('sum over %r' % (x,), node)
 
 
 def b_abs(ip, args, kwargs, node):
@@ -976,7 +1196,7 @@ def np_meshgrid(ip, args, kwargs, node):
     a, _ = ip.term_of(args[0], node)
     b, _ = ip.term_of(args[1], node)
     ip.notes.append(('meshgrid', {'loc': ip.loc(node)}))
-    return Seq([ip.fresh_array(N.fn('mesh0', a)), ip.fresh_array(N.fn('mesh1', b))])
+    return Seq([ip.fresh_array(P.lift1(lambda t: N.fn('mesh0', t), a)), ip.fresh_array(P.lift1(lambda t: N.fn('mesh1', t), b))])
 
 
 CALLS = {
@@ -1000,10 +1220,12 @@ CALLS = {
     'numpy.argmin': np_position('argmin'), 'numpy.count_nonzero': np_position('count_nonzero'),
     'numpy.zeros_like': np_fill(0), 'numpy.ones_like': np_fill(1), 'numpy.zeros': np_fill(0),
     'numpy.ones': np_fill(1),
-    'numpy.copy': np_copy, 'numpy.array': np_copy, 'numpy.asarray': np_asarray,
+    'numpy.copy': np_copy, 'numpy.array': np_array, 'numpy.asarray': np_asarray, 'numpy.asanyarray': np_asarray,
+    'numpy.asfarray': lambda ip, a, k, n: np_asarray(ip, a, dict(k, dtype=k.get('dtype', Lib('builtins.float'))), n),
     'numpy.arange': np_arange, 'numpy.linspace': np_linspace,
     'numpy.any': np_reduce('any'), 'numpy.all': np_reduce('all'), 'numpy.min': np_reduce('min'),
-    'numpy.max': np_reduce('max'), 'numpy.sum': np_reduce('sum'),
+    'numpy.max': np_reduce('max'), 'numpy.sum': np_reduce('sum'), 'numpy.amax': np_reduce('max'), 'numpy.amin': np_reduce('min'),
+    'numpy.mean': np_reduce('mean'), 'numpy.ptp': np_reduce('ptp'), 'numpy.median': np_reduce('median'),
     'numpy.allclose': np_allclose, 'numpy.array_equal': np_array_equal, 'numpy.loadtxt': np_loadtxt,
     'numpy.polyfit': np_polyfit, 'numpy.poly1d': np_poly1d,
     'numpy.einsum': np_einsum, 'numpy.linalg.inv': np_inv,
@@ -1018,7 +1240,7 @@ CALLS = {
     'itertools.product': it_product, 'itertools.combinations': it_combinations(False),
     'itertools.combinations_with_replacement': it_combinations(True),
     'warnings.warn': w_warn,
-    'builtins.len': b_len, 'builtins.range': b_range, 'builtins.abs': b_abs,
+    'builtins.len': b_len, 'builtins.range': b_range, 'builtins.abs': b_abs, 'builtins.sum': b_sum, 'builtins.max': b_minmax('max'), 'builtins.min': b_minmax('min'),
     'builtins.isinstance': b_isinstance, 'builtins.hasattr': b_hasattr, 'builtins.frozenset': b_frozenset, 'builtins.iter': b_iter, 'builtins.any': b_anyall('any'), 'builtins.all': b_anyall('all'),
     'builtins.dict.fromkeys': dict_fromkeys, 'builtins.dict': b_dict, 'builtins.id': b_id, 'builtins.set': b_set, 'builtins.getattr': b_getattr, 'builtins.enumerate': b_enumerate, 'builtins.list': b_list,
     'builtins.tuple': b_list,
@@ -1068,6 +1290,10 @@ def num_attr(ip, o, name, node):
         return Native('ndarray.reshape', nd_reshape, o)
     if name == 'copy':
         return Native('ndarray.copy', lambda ip2, s, a, k, n: np_copy(ip2, [s], {}, n), o)
+    if name == 'astype':
+        return Native('ndarray.astype', nd_astype, o)
+    if name == 'dtype':
+        return Obj('dtype', {'arr': o})
     if name == 'T':
         raise Unsupported('transpose', node)
     if name in ('sum', 'min', 'max', 'any', 'all'):
@@ -1104,9 +1330,23 @@ def nd_reshape(ip, selfv, args, kwargs, node):
 _INV = {'unflat': 'flat', 'flat': 'unflat', 'col3': 'uncol3', 'uncol3': 'col3'}
 
 
+def nonspatial_split(ip, t):
+    """True when every condition a piecewise term branches on involves only quantities that do not vary along the grid
+    axis (scalars, length-1 stacks): such a case split commutes with re-indexing and with the transforms"""
+    ps, fs = P.conds(t)
+    for pair in ps:
+        for key in pair:
+            kinds = {ip.sym_kind.get(sn, 'scalar') for sn in N.nf_from_key(key).symbols()}
+            if not kinds <= {'scalar', 'mat1'}:
+                return False
+    return True
+
+
 def reshape_term(ip, t, kindname, n, node=None):
     if P.is_pw(t):
-        raise Unsupported('reshape of a piecewise term', node)
+        if not nonspatial_split(ip, t):
+            raise Unsupported('reshape of a piecewise term', node)
+        return P.lift1(lambda leaf: reshape_term(ip, leaf, kindname, n, node), t)
 
     def leaf(a):
         if a[0] == 'fn' and a[1] in ('log', 'sin', 'cos', 'abs'):
@@ -1149,6 +1389,30 @@ def seq_attr(ip, o, name, node):
             s.items.append(a[0])
             return NONE
         return Native('list.append', app, o)
+    if name in ('index', 'count'):
+        def find(ip2, s, a, k, n):
+            hits = []
+            for pos, x in enumerate(s.items):
+                e = x is a[0] or ip2.compare('Eq', a[0], x, n)
+                if e is True or (isinstance(e, Const) and e.v is True):
+                    hits.append(pos)
+                elif not (isinstance(e, Const) and e.v is False):
+                    raise Unsupported('list.%s with symbolic equality' % name, n)
+            if name == 'count':
+                return const_num(len(hits))
+            if not hits:
+                raise Raised('ValueError', '%r is not in list' % (getattr(a[0], 'v', a[0]),), ip2.loc(n))
+            return const_num(hits[0])
+        return Native('list.' + name, find, o)
+    if name == 'copy':
+        return Native('list.copy', lambda ip2, s, a, k, n: Seq(list(s.items), s.kind), o)
+    if name == 'extend':
+        def ext(ip2, s, a, k, n):
+            if not isinstance(a[0], Seq):
+                raise Unsupported('list.extend with %r' % (a[0],), n)
+            s.items.extend(a[0].items)
+            return NONE
+        return Native('list.extend', ext, o)
     raise Unsupported('attribute %s of a sequence' % name, node)
 
 
@@ -1224,13 +1488,25 @@ def listcomp(ip, node, env):
 
 
 def _dict_key(k, node):
+    """hashable stand-in for a dictionary key.  A symbolic number is keyed by its canonical term: two keys are the same
+    entry iff their terms are identical (generic position: distinct terms are assumed to be distinct numbers -- a cache
+    keyed on f(x) is therefore never credited with an accidental collision f(x) == f(y))"""
     if isinstance(k, Num) and is_const_num(k):
         return num_value(k)
+    if isinstance(k, Num) and k.kind == 'scalar' and not P.is_pw(k.t):
+        return ('term', N.reg(k.t))
     if isinstance(k, Const):
         return k.v
-    if isinstance(k, Seq) and all(isinstance(x, Const) for x in k.items):
-        return tuple(x.v for x in k.items)
-    raise Unsupported('dictionary key %r is not a constant' % (k,), node)
+    if isinstance(k, Label):
+        return ('label', k.name)
+    if isinstance(k, Seq) and k.kind != 'list':
+        return tuple(_dict_key(x, node) for x in k.items)
+    raise Unsupported('dictionary key %r is not hashable in the model' % (k,), node)
+
+
+def _key_value(o, hk):
+    kv = o.attrs.get('keyvals', {})
+    return kv[hk] if hk in kv else Const(hk)
 
 
 def dict_getitem(ip, o, args, kwargs, node):
@@ -1241,7 +1517,10 @@ def dict_getitem(ip, o, args, kwargs, node):
 
 
 def dict_setitem(ip, o, args, kwargs, node):
-    o.attrs['items'][_dict_key(args[0], node)] = args[1]
+    hk = _dict_key(args[0], node)
+    o.attrs['items'][hk] = args[1]
+    if not isinstance(args[0], Const):
+        o.attrs.setdefault('keyvals', {})[hk] = args[0]
     if o.origin is not None:
         ip.event('write', o.origin, node, via='dict store')
     return NONE
@@ -1257,11 +1536,11 @@ def dict_values(ip, o, args, kwargs, node):
 
 
 def dict_keys(ip, o, args, kwargs, node):
-    return Seq([Const(k) for k in o.attrs['items']], 'list')
+    return Seq([_key_value(o, k) for k in o.attrs['items']], 'list')
 
 
 def dict_items(ip, o, args, kwargs, node):
-    return Seq([Seq([Const(k), v]) for k, v in o.attrs['items'].items()], 'list')
+    return Seq([Seq([_key_value(o, k), v]) for k, v in o.attrs['items'].items()], 'list')
 
 
 DICT_METHODS = {'copy': dict_copy, '__getitem__': dict_getitem, '__setitem__': dict_setitem, 'get': dict_get, 'values': dict_values,
